@@ -50,3 +50,8 @@ where
         klukai_types::spawn::spawn_counted(fut);
     }
 }
+
+#[cfg(feature = "verif")]
+pub mod verif_reexport {
+    pub use super::handlers::{handle_changes, handle_notifications, handle_sync};
+}
